@@ -27,6 +27,7 @@ history only, never from the model's verdicts):
 import LndModel.Prelude.Lines
 import LndModel.C01.Model
 import LndModel.C01.Bounded
+import LndModel.C02.Model
 
 open LndModel LndModel.Lines LndModel.C01
 
@@ -174,6 +175,12 @@ structure St where
   mB : Node := default
   qab : List Msg := []
   qba : List Msg := []
+  /-- durable state of each node (C02's model of the channel database), kept next to the memory
+      model so that a restart (`R` line) can be mirrored by C02's `restore`. -/
+  kA : LndModel.C02.Disk := default
+  kB : LndModel.C02.Disk := default
+  restarts : Nat := 0
+  restartsPending : Nat := 0
   -- implementation view
   dA : NDump := {}
   dB : NDump := {}
@@ -443,6 +450,7 @@ def flush (s : St) : IO St := do
   if !s.inited then
     if s.dA.seen && s.dB.seen then
       s := { s with inited := true, mA := nodeOfDump s.cfgA s.dA, mB := nodeOfDump (s.cfgA.mirror) s.dB }
+      s := { s with kA := (LndModel.C02.St.init s.mA).disk, kB := (LndModel.C02.St.init s.mB).disk }
     else return s
   for node in s.dirty.eraseDups do
     let d := if node == "A" then s.dA else s.dB
@@ -476,6 +484,14 @@ def internalErr (r : String) : Bool :=
 
 def setNode (s : St) (node : String) (n : Node) : St :=
   if node == "A" then { s with mA := n } else { s with mB := n }
+
+/-- the database writes of `SignNextCommitment` / `RevokeCurrentCommitment` / `ReceiveRevocation`
+    (C02's model), applied to the durable state of `node`; `n` = memory before the call. -/
+def diskStep (s : St) (node : String) (n : Node) (o : Op) : St :=
+  let dk := if node == "A" then s.kA else s.kB
+  let st : LndModel.C02.St := { mem := n, cur := n.chainL.tail.height, disk := dk }
+  let dk' := (st.apiStep o).2.disk
+  if node == "A" then { s with kA := dk' } else { s with kB := dk' }
 
 def pushMsg (s : St) (node : String) (m : Msg) : St :=
   if node == "A" then { s with qab := s.qab ++ [m] } else { s with qba := s.qba ++ [m] }
@@ -547,10 +563,10 @@ def opLine (s : St) (node : String) (ws : List String) : IO St := do
     chk s e n' (some (.fee f))
   | "sign" =>
     let (e, n', sv) := n.sign
-    chk s e n' (sv.map Msg.commitSig)
+    chk (diskStep s node n .sign) e n' (sv.map Msg.commitSig)
   | "revoke" =>
     let (e, n') := n.revoke
-    chk s e n' (some .revoke)
+    chk (diskStep s node n .revoke) e n' (some .revoke)
   | _ => mismatch s s!"unknown op {op}"
 
 def msgKind : Msg → String
@@ -638,10 +654,33 @@ def deliverLine (s : St) (ws : List String) : IO St := do
     else
       let n := if recv == "A" then s.mA else s.mB
       let (e, n') := n.deliver m
-      let s2 := if dir == "AB" then { s with qab := rest } else { s with qba := rest }
+      let s1 := match m with
+        | .revoke => diskStep s recv n .receiveRevocation
+        | _ => s
+      let s2 := if dir == "AB" then { s1 with qab := rest } else { s1 with qba := rest }
       if e.toString != impl then
         mismatch s2 s!"deliver {dir} {kind}: model={e.toString} impl={impl}"
       else pure (setNode s2 recv n')
+
+/-- `R X pending=… => res`: node X alone is restarted (live object replaced by one rebuilt from
+    its database), the transport keeps running.  Model: C02's `restore` on the modelled durable
+    state.  The monitor goes on unchanged: the restarted node must behave like the old one. -/
+def reloadLine (s : St) (ws : List String) : IO St := do
+  let mut s ← flush s
+  let node := ws[1]?.getD ""
+  let impl := resOf ws
+  s := readQ { s with ops := s.ops + 1, restarts := s.restarts + 1, dirty := [node],
+                      restartsPending := s.restartsPending + (kvNat? ws "pending").getD 0 } ws
+  s := { s with errKinds := bump s.errKinds ("restart_" ++ impl) }
+  if impl != "ok" then
+    s ← monitor s "internal-error" s!"node={node} restart => {impl}"
+    return { s with dead := true, dirty := [] }
+  if !s.modelOk then return s
+  let n := if node == "A" then s.mA else s.mB
+  let dk := if node == "A" then s.kA else s.kB
+  match LndModel.C02.restore n.cfg dk with
+  | .error e => mismatch s s!"node={node} model restore fails ({e.toString}), implementation restarts fine"
+  | .ok n' => pure (setNode s node n')
 
 def b01 (ws : List String) (k : String) : Bool := (kvNat? ws k).getD 0 == 1
 
@@ -700,6 +739,7 @@ def step (s : St) (line : String) : IO St := do
       return if node == "A" then { s with dA := upd s.dA } else { s with dB := upd s.dB }
     | none => mismatch s s!"unparsed commitment line"
   | "D" :: _ => deliverLine s ws
+  | "R" :: _ => reloadLine s ws
   | "A" :: _ => opLine s "A" ws
   | "B" :: _ => opLine s "B" ws
   | "HSTAT" :: kvs =>
@@ -739,6 +779,8 @@ def main (args : List String) : IO Unit := do
   IO.println s!"STAT mirror_signed_checks={s.mirrorSigned}"
   IO.println s!"STAT log_agreement_checks={s.agreeChecks}"
   IO.println s!"STAT corrupted_signatures_delivered={s.badSigs}"
+  IO.println s!"STAT restarts={s.restarts}"
+  IO.println s!"STAT restarts_with_pending_commitment={s.restartsPending}"
   IO.println s!"STAT htlc_output_indices_checked={s.outIdxChecked}"
   IO.println s!"STAT idle_mirror_checks={s.idleChecks}"
   IO.println s!"STAT dust_htlcs_on_commitments={s.dustHtlcs}"
